@@ -201,6 +201,47 @@ class World:
         return res
 
 
+def _param_len_range(self, fn, k):
+    """range of the length of the slice handed in as parameter k of a function that is not
+    reachable from outside the crate: the join over all its call sites"""
+    key = (fn, k, "len")
+    if key in self.param_inv:
+        return self.param_inv[key]
+    if key in self.in_progress:
+        return None
+    self.in_progress.add(key)
+    fb = self.ctx.fb
+    res = None
+    try:
+        b = fb.body(fn)
+        callers = util.callers_of(fb, fn)
+        if b is None or not callers or b.reachable() and b.is_pub():
+            res = (0, INF)
+        else:
+            for cb, bi, t in callers:
+                pr = self.prover(cb.path)
+                info = pr.se.term_info.get(bi) if pr is not None else None
+                if info is None or k - 1 >= len(info.get("args", ())):
+                    res = (0, INF)
+                    break
+                a = info["args"][k - 1]
+                val = pr.se.call_old.get((info["site"], k - 1)) if strip(a)[0] == "mutref" or a[0] == "mutref" else (a[1] if a[0] in ("refv", "ref") else a)
+                if val is None:
+                    res = (0, INF)
+                    break
+                res = join(res, pr.len_range(val, bi))
+    finally:
+        self.in_progress.discard(key)
+    if res is None:
+        res = (0, INF)
+    if not self.iterating and not self.in_progress:
+        self.param_inv[key] = res
+    return res
+
+
+World.param_len_range = _param_len_range
+
+
 def _place_touches(fb, b, p, adt, idx, borrow=False):
     ty = b.local_ty(p["l"])
     for e in p["p"]:
@@ -266,6 +307,35 @@ class Prover:
                         out.append((info["discr"], ("not", tuple(vals))))
                     else:
                         out.append((info["discr"], ("is", v)))
+        # a switch on a join of constants (`matches!(x, a..=b)` leaves a boolean phi): the value
+        # taken tells which predecessors of the join were possible; what holds at all of them
+        # holds here
+        if not getattr(self, "_in_phi_facts", False):
+            self._in_phi_facts = True
+            try:
+                for d, v in list(out):
+                    dd = strip(d)
+                    if dd[0] == "phi" and dd[1] == self.se.fn and (dd[2], dd[3]) in self.se.phi_inputs and v[0] in ("is", "not"):
+                        ins = self.se.phi_inputs[(dd[2], dd[3])]
+                        if not all(strip(x)[0] == "int" for x in ins.values()):
+                            continue
+                        if v[0] == "is":
+                            preds = [p_ for p_, x in ins.items() if strip(x)[1] == v[1]]
+                        else:
+                            preds = [p_ for p_, x in ins.items() if strip(x)[1] not in v[1]]
+                        if not preds:
+                            continue
+                        common = None
+                        for p_ in preds:
+                            fs = set((f_[0], f_[1]) for f_ in self.facts(p_))
+                            # the edge p_ -> join itself, when p_ ends in a switch, is not needed:
+                            # facts(p_) already holds everything established on the way to p_
+                            common = fs if common is None else (common & fs)
+                        for f_ in sorted(common or (), key=str):
+                            if f_ not in out:
+                                out.append(f_)
+            finally:
+                self._in_phi_facts = False
         for ab, info in self.se.term_info.items():
             if info.get("k") == "assert" and ab != bb and cfg.must_pass_block(self.body, ab, bb):
                 out.append((info["cond"], ("is", 1 if info["expected"] else 0)))
@@ -705,6 +775,10 @@ class Prover:
                 return (0, 0)
             if n.endswith("pin::pin_to_bytes"):
                 return (0, 10)
+        if k == "param" and d < 8:
+            r = self.w.param_len_range(self.se.fn, x[1])
+            if r is not None:
+                return r
         return (0, INF)
 
     def _typed_len(self, x):
